@@ -507,9 +507,11 @@ def measure(res, frame, times, arrays, rf_obj, rf_arr, bm_obj, bm_arr, q, ndaily
                 raise
             compare(name + "(benchmark)", result, key, dates[1:] if name == "excess_returns" else None)
 
-    if tearsheet and not (rf_obj is not None and rf_arr is None):
-        # (a numeric risk-free other than 0 is turned into a synthetic 252-steps-a-year series by the tearsheet)
-        check_tearsheet(res, frame, refs, rf_obj if rf_arr is not None else None, bm_obj, ndaily)
+    if tearsheet:
+        # (risk-free as a level series, as a number - an annual rate - or absent)
+        check_tearsheet(res, frame, refs, rf_obj, bm_obj, ndaily)
+        if rf_obj is not None and rf_arr is None:
+            res.tag("tearsheet:numeric-risk-free")
     if track:
         # TrackRecord.tearsheet() measures the net liquidation values with risk_free = 0 and no benchmark
         check_track_record(res, times, arrays[0], [ref_metrics(times, arrays[0], qs)])
